@@ -308,7 +308,7 @@ def build(case):
         elif shape == "two":
             cells = {"label": f"L ${{{t}}} m ${{{u}}} l", "relevant": f"${{{t}}} = 101 and ${{{u}}} = 201",
                      "calculation": f"if(${{{t}}} > 1, ${{{u}}}, ${{{t}}})", "hint": f"${{{u}}} then ${{{t}}}",
-                     "choice_filter": f"cf = ${{{t}}} or cf = ${{{u}}}"}
+                     "choice_filter": f"cf = ${{{t}}} or cf = ${{{u}}}", "parameters": f"randomize=true seed=${{{t}}}+${{{u}}}*7"}
         elif shape == "lastsaved":
             cells = {"calculation": f"${{last-saved#{t}}} + 105",
                      "default": f"${{last-saved#{t}}}", "relevant": f"${{last-saved#{t}}} = 101 and ${{{t}}} = 1",
